@@ -397,8 +397,8 @@ StepCb(s, e) ==
 (* --- close: BaseFlumine._process_close_market (simulation) ---------------- *)
 StepClose(s, e, n) ==
     LET mid == e.a.mid IN
-    IF ~Has(s.mkt, mid) THEN s    \* market never seen open: dropped (known finding D14)
-    ELSE [s EXCEPT !.mkt[mid] = n.mkt[mid],
+    \* a market not seen open is added first (as the live framework does), then closed
+    [s EXCEPT !.mkt = Put(s.mkt, mid, n.mkt[mid]),
                    !.rc = [k \in {x \in DOMAIN s.rc : s.rc[x].mid # mid} |-> s.rc[k]]]
 
 -----------------------------------------------------------------------------
